@@ -401,7 +401,8 @@ def parseString (s : List Char) : Except LexErr Ast :=
   else
     match skipWs s with
     | '=' :: r =>
-      (match skipWs r with
+      -- leading blanks belong to `formula_check`; trailing blanks mean nothing (`fix:` commit: `rstrip`)
+      (match skipWs ((skipWs r).reverse.dropWhile isWs).reverse with
        | [] => .error .formula
        | body => parseFormulaBody body)
     | '#' :: _ => .error .outOfDomain       -- a bare error literal is accepted by `is_formula`
